@@ -84,7 +84,7 @@ var (
 		}),
 		LinearisationSqrt: LineariserFunc(math.Sqrt),
 		LinearisationCubeRt: LineariserFunc(func(f float64) float64 {
-			return math.Pow(f, 1./3)
+			return math.Cbrt(f)
 		}),
 	}
 )
